@@ -10,6 +10,24 @@ COMMON_TRUSTED = [
 NOT_APPLICABLE = {}
 
 PROPS = {
+    "C20": dict(
+        level_text="Proof: the loader (VM.Compile, the read loop of VM.compile, text.flush, VM.directive, text.forEachUserDefined, the commit loop) is modelled in Lean over the list of READ RESULTS (a term or a syntax error), so that 'for all item lists' covers every text and every fault position; directives go through an oracle that MAY have side effects. Kernel-checked for all item lists, fuels and oracles: an error raised before the commit leaves the procedure table equal to what the directives alone made of it — equal to the table before the call when directives are side-effect free (C20_all_or_nothing), the staged clauses of every predicate are the text's clauses for it in source order (C20_source_order), the contiguity error is raised exactly when a later run of a predicate is not preceded by a discontiguous declaration (C20_contiguity), declarations set exactly their flags, the commit replaces or (both multifile) appends and touches nothing else, and directives/initialization goals run in source order, the latter after the commit. The model is tied to the Go code by the c20.load stream: generated texts x every item position x one fault of each kind, and truncation at every byte offset, on top of earlier loads; judged by the independent executable specification Spec/Load.",
+        level_note="Trusted: Lean kernel; the hand-written model (correspondence-checked, not proved); the reader and term expansion are abstracted (items are read results after expansion; the DCG expansion in the payload comes from the engine's own translator, C17's subject); which byte offsets fall inside an item is decided by the harness's text layout; goal directives are evaluated by a small oracle (true, fail, throw/1, =/2, facts of earlier loads). ensure_loaded/1 (a load of its own) is not generated; include/1 is modelled as splicing and covered by the stream, the order theorems are stated for include-free texts.",
+        technique="Lean 4 invariant proofs by induction over arbitrary item lists (staging invariants, simulation with a run-scanning specification) + model/implementation correspondence with exhaustive fault positions",
+        lean_module="PrologVerif.Properties.C20",
+        ns="PrologVerif.C20",
+        streams=[dict(name="c20.load", quick=8000, thorough=60000)],
+        rule="base texts over 3-6 of the predicates a/1 b/1 c/2 d/0 e/1 'q q'/1 and the grammar predicates g//0 h//0 (facts, rules, top-level disjunctions, if-then-else, DCG rules), contiguous or split in two runs, with/without discontiguous/dynamic/multifile declarations (also too late), side-effect-free directives (also calling facts of an earlier load), initialization goals, comments, include/1 of a generated file; for EVERY base text: the text itself, one fault of each of 17 kinds (3 syntax errors, variable/number clause, non-callable body/head, failing/throwing/unknown/ill-typed/variable directive, malformed declarations, stray clause of an earlier predicate, missing include file) inserted at EVERY item position, and truncation at EVERY byte offset; each variant is loaded after 0-3 earlier loads of overlapping predicates (k/1 facts, shared multifile predicate); one PRNG (VERIF_SEED); non-trivial = the text defines >= 2 predicates and the fault is not at position 0 (or there is no fault); distinct = distinct case text",
+        trusted=[
+            "modelled (hand-written, correspondence-checked): engine/text.go VM.Compile, VM.compile, text.flush, VM.directive (dynamic, multifile, discontiguous, initialization, include, other goals), text.forEachUserDefined, anyIterator; engine/clause.go compile (through Model/DB); vm.go piArg",
+            "abstracted: the reader (Parser.More/Term) as a list of read results; expand (DCG) as given; execution of goals as an oracle",
+            "not modelled: ensure_loaded/1, consult/1, placeholders, the shebang line, term_expansion/2",
+        ],
+        modelled={"hand_modelled": ["VM.Compile", "VM.compile", "text.flush", "VM.directive", "text.forEachUserDefined", "anyIterator", "compile"],
+                  "regenerated": [], "observed_only": ["Parser", "expandDCG", "Call", "VerifProcedures"]},
+        assumptions=["directives of the generated texts are side-effect free (the property restricts itself to those); the all-or-nothing theorem has this as an explicit hypothesis",
+                     "every read item is either a term or a syntax error; a text that ends inside an item reads as a syntax error at that position (holds for the repaired loader, D19)"],
+    ),
     "C09": dict(
         level_text="Proof: the clause database (assertMerge/Asserta/Assertz, Retract, Abolish, the per-call snapshot of clauses.call, piArg/compile's clause splitting) is modelled in Lean as a state machine whose OPEN ITERATORS are first-class, so histories are arbitrary interleavings (not only LIFO). For ALL histories from any state with unique clause identities the model of the repaired Retract produces exactly the outputs and final state of the logical-update-view specification Spec/LUV (C09_retract_refines_luv, with the identity invariant C09_inv proved by induction over histories); an open call's remaining clauses are always a suffix of its call-time list and its answers do not depend on the current database (C09_call_sees_snapshot, C09_call_answer_independent_of_db); asserta/assertz positions, abolish, permission errors on static procedures, 'an error changes nothing' and absence of Go panics are theorems; retractall/1 is derived from the regenerated bootstrap clauses. The pinned positional arithmetic is refuted by kernel-evaluated witnesses (C09_retract_positional_witness, C09_no_panic_witness). The model is tied to the Go code by the c09.hist stream (interleaved Solutions of one interpreter + nested failure-driven loops), judged by the executable specification.",
         level_note="Trusted: Lean kernel; the hand-written model (correspondence-checked, not proved); harness canonicalisation; unification/renaming inside the model are shared by model and specification (the theorems do not depend on their properties); bodies of stored clauses are assumed to succeed exactly once (the stream stores facts and rules whose alternatives are `true`). The pinned variant looks the procedure up by indicator (the pinned Go code holds the *userDefined): differs only after abolish/1 of the predicate being retracted from, which the witnesses do not use.",
